@@ -355,6 +355,36 @@ func checkC10(c *vlib.Ctx) (string, string) {
 			}
 			c.Transitions.Add(int64(n))
 		}
+		// dictionary pass: a representative request of every (method, Origin, ACRM) class with one more header that
+		// browsers, proxies or frameworks really send; unless the first response's Vary names that header, the pair
+		// is cache-equivalent and must be answered identically
+		seenClass := map[string]bool{}
+		for i, r := range reqs {
+			cls := r.Method + "|" + fieldLines(r, "Origin") + "|" + fieldLines(r, "Access-Control-Request-Method")
+			if seenClass[cls] || len(r.Hdr) > 3 {
+				continue
+			}
+			seenClass[cls] = true
+			listed := map[string]bool{}
+			for _, vn := range varyNames(resps[i].Hdr["Vary"]) {
+				listed[vn] = true
+			}
+			for _, e := range requestHeaderDictionary {
+				if listed[http.CanonicalHeaderKey(e[0])] || listed["*"] {
+					continue
+				}
+				r2 := withDictionaryHeader(r, e)
+				c.Transitions.Add(1)
+				if got := vlib.Serve(h, &inner.Calls, r2, pre); got.Sig() != sigs[i] {
+					k := c10Case{Passthrough: j.pass, Cfg: j.lit, Debug: j.debug, Preset: j.preset, R1: r, R2: r2, History: j.hist}
+					if f := vlib.Guard(func() *vlib.Failure { return c10Judge(k) }); f != nil {
+						ck.Report(k, f)
+					} else {
+						vlib.HarnessError("dictionary pass and judge disagree on %+v", k)
+					}
+				}
+			}
+		}
 		c.States.Add(int64(n))
 		var pairs, nontrivial int64
 		for a := 0; a < n; a++ {
